@@ -43,6 +43,7 @@ type opInfo struct {
 	Kind string `json:"kind"`
 	Arg  string `json:"arg,omitempty"`
 	Err  string `json:"err,omitempty"`
+	Code string `json:"code,omitempty"` // codespace/code of a failing direct call
 }
 
 type blockObs struct {
@@ -52,6 +53,10 @@ type blockObs struct {
 	Results string   `json:"results"`
 	Events  string   `json:"events"`
 	Faults  string   `json:"fault_counters"`
+	// digest of what CometBFT hashes into LastResultsHash per transaction (code, data, gas wanted,
+	// gas used) plus the codespace; for direct calls code, codespace and gas consumed
+	Consensus string   `json:"consensus_results"`
+	TxResults []string `json:"tx_results,omitempty"`
 	Ops     []opInfo `json:"ops"`
 	Err     string   `json:"err,omitempty"`
 }
@@ -64,6 +69,7 @@ type modelCase struct {
 type childOut struct {
 	Blocks   []blockObs     `json:"blocks"`
 	Models   []modelCase    `json:"models"`
+	Repeats  []repeatObs    `json:"repeats"`
 	Coverage map[string]int `json:"coverage"` // site -> number of executions on >= 2 elements
 	Hist     map[string]int `json:"hist"`
 	Notes    []string       `json:"notes"`
@@ -186,17 +192,18 @@ func runParent(seed int64, n int, outDir string) error {
 		}
 	}
 	for b := 0; b < maxBlocks; b++ {
-		var ah, rs, ev, fc []string
+		var ah, rs, ev, fc, cs []string
 		var info map[string]any
 		for i, o := range outs {
 			if b >= len(o.Blocks) {
-				ah, rs, ev, fc = append(ah, "0"), append(rs, "0"), append(ev, "0"), append(fc, "0")
+				ah, rs, ev, fc, cs = append(ah, "0"), append(rs, "0"), append(ev, "0"), append(fc, "0"), append(cs, "0")
 				continue
 			}
 			blk := o.Blocks[b]
 			fsum := sha256.Sum256([]byte(blk.Faults))
 			ah, rs, ev = append(ah, digestZ(blk.AppHash)), append(rs, digestZ(blk.Results)), append(ev, digestZ(blk.Events))
 			fc = append(fc, digestZ(hex.EncodeToString(fsum[:])))
+			cs = append(cs, digestZ(blk.Consensus))
 			if i == 0 {
 				info = map[string]any{"kind": "block", "block_index": b, "height": blk.Height, "dt_s": blk.DtSec, "ops": blk.Ops, "err": blk.Err,
 					"replay": map[string]any{"H": map[string]any{"seed": seed, "n": n, "upto_block_index": b},
@@ -210,7 +217,8 @@ func runParent(seed int64, n int, outDir string) error {
 		for i, o := range outs {
 			if b < len(o.Blocks) {
 				per = append(per, map[string]string{"replica": fmt.Sprint(i), "process": role(i), "app_hash": o.Blocks[b].AppHash, "results": o.Blocks[b].Results,
-					"events": o.Blocks[b].Events, "fault_counters": o.Blocks[b].Faults})
+					"events": o.Blocks[b].Events, "fault_counters": o.Blocks[b].Faults, "consensus_results": o.Blocks[b].Consensus,
+					"tx_results": strings.Join(o.Blocks[b].TxResults, " | ")})
 			}
 		}
 		info["digests"] = per
@@ -218,7 +226,7 @@ func runParent(seed int64, n int, outDir string) error {
 		if b < len(outs[0].Blocks) {
 			h = outs[0].Blocks[b].Height
 		}
-		cf.Add(fmt.Sprintf("CBlock %d %s %s %s %s", h, emit.List(ah), emit.List(rs), emit.List(ev), emit.List(fc)))
+		cf.Add(fmt.Sprintf("CBlock %d %s %s %s %s %s", h, emit.List(ah), emit.List(rs), emit.List(ev), emit.List(fc), emit.List(cs)))
 		st.Info(info)
 		st.Evaluations++
 		st.Count("block")
@@ -234,6 +242,46 @@ func runParent(seed int64, n int, outDir string) error {
 				st.Count("block:failed")
 			}
 		}
+	}
+	// failing messages with several independent defects: every execution in every process
+	maxRep := 0
+	for _, o := range outs {
+		if len(o.Repeats) > maxRep {
+			maxRep = len(o.Repeats)
+		}
+	}
+	for k := 0; k < maxRep; k++ {
+		var ds, ls []string
+		info := map[string]any{"kind": "repeat"}
+		per := []map[string]any{}
+		for i, o := range outs {
+			if k >= len(o.Repeats) {
+				ds, ls = append(ds, "0"), append(ls, "0")
+				continue
+			}
+			rp := o.Repeats[k]
+			if i == 0 {
+				info["message"], info["message_kind"] = rp.Arg, rp.Kind
+			}
+			distinct := map[string]int{}
+			for _, oc := range rp.Outcomes {
+				cons := oc
+				if j := strings.Index(oc, logSep); j >= 0 {
+					cons = oc[:j]
+				}
+				ds = append(ds, digestZ(outcomeDigest(cons)))
+				ls = append(ls, digestZ(outcomeDigest(oc)))
+				distinct[oc]++
+			}
+			per = append(per, map[string]any{"replica": i, "process": role(i), "message": rp.Kind + " " + rp.Arg, "outcomes": distinct})
+		}
+		info["executions"] = per
+		info["replay"] = map[string]any{"H": map[string]any{"seed": seed, "n": n, "repeat_index": k}, "W": warmups[:M],
+			"how": "rerun the harness with the same seed and n; the message above is executed repeatedly on the state the history has reached at that point"}
+		cf.Add("CRepeat " + emit.List(ds) + " " + emit.List(ls))
+		st.Info(info)
+		st.Evaluations++
+		st.Count("repeat:" + fmt.Sprint(info["message_kind"]))
 	}
 	// model correspondence cases from replica 0; the other replicas must have dumped the same terms
 	for k, m := range outs[0].Models {
